@@ -17,7 +17,9 @@ Oracles on the real code (never use the model):
 Correspondence: `gdrv C09 cflat`: the real NamespaceFlattener(prefixes, cache=True / False) alone on those item
 streams against the Lean model of the filter with its cache (`Xml.cflatten`, Model/OutputFlattenCache.lean), typed
 values compared with their types; `gdrv C09 flatser` (stream `sert`): that filter followed by the main loop of the method, both with the
-same cache flag, against `serT` (Model/OutputFlatPipeline.lean); the same renders against the Lean model (`gdrv C09 render`), all configurations;
+same cache flag, against `serT` (Model/OutputFlatPipeline.lean); `gdrv C09 renderfull`: the whole serializer with the full
+flattener (`renderFull`, Model/OutputPipelineFull.lean) against the real render, every configuration of the
+namespace-heavy profiles and a third of the others; the same renders against the Lean model (`gdrv C09 render`), all configurations;
 `gdrv C09 loopm`: the main loops alone (filters removed) on typed events — START / EMPTY data whose
 attribute values are Markup or plain — against the Lean model of the repaired loops (`loopT`).
 """
@@ -33,10 +35,11 @@ TRUSTED = [
     'modelled, not verified: genshi/output.py EmptyTagFilter, WhitespaceFilter, DocTypeInserter, the three '
     'serializer main loops (hand-written Lean model, tied by differential correspondence on rendered output)',
     'NamespaceFlattener inside `render` is modelled on the lite domain only (no namespaces, or XHTML elements with '
-    'prefix ""; xml:* attributes); the filter alone WITH its START/EMPTY cache is modelled on the full namespace '
-    'domain (Model/OutputFlattenCache.lean over C02\'s Model/XmlFlatten.lean, hand-written, tied by the cflat '
-    'correspondence stream with cache on and off); namespace-heavy streams through the whole serializer are judged '
-    'by the oracles only (the render model answers unmodelled)',
+    'prefix ""; xml:* attributes; proved to be the full model restricted); the filter WITH its START/EMPTY cache is '
+    'modelled on the full namespace domain (Model/OutputFlattenCache.lean over C02\'s Model/XmlFlatten.lean, '
+    'hand-written, tied by the cflat / sert correspondence streams with cache on and off), and `renderFull` '
+    '(Model/OutputPipelineFull.lean) is the whole serializer with it, tied by the renderfull stream on the '
+    'namespace-heavy profiles',
     'START_NS(prefix, None) with a non-empty prefix is outside the generators (C02\'s model reads an unbound '
     'prefix and the URI None differently from the code; the XML parser never produces it)',
     'not modelled: Python re (the two regular expressions of WhitespaceFilter are list functions in Lean, '
@@ -534,6 +537,7 @@ def shard(arg):
     rng = random.Random('%s/%s/C09' % (seed, idx))
     res = Result()
     lines, meta = [], []
+    flines, fidx = [], []
     tlines, tmeta = [], []
     for _ in range(n):
         profile, knobs = pick_profile(rng)
@@ -594,6 +598,11 @@ def shard(arg):
         for cfg in corr_configs(dt, dropd):
             lines.append(outlib.model_render_line(js, cfg))
             meta.append((js, cfg))
+            # the whole serializer with the FULL flattener (renderFull): every configuration of the namespace-heavy
+            # profiles (where `render` answers unmodelled), every third one elsewhere
+            if profile.startswith('ns-heavy') or profile.startswith('xhtml-ns') or len(lines) % 3 == 0:
+                flines.append(lines[-1].replace('C09 render ', 'C09 renderfull ', 1))
+                fidx.append(len(lines) - 1)
         if len(res.samples) < 2:
             res.samples.append({'stream': js, 'profile': profile})
     flat_cache_part(rng, max(1, n // 3), res)
@@ -613,12 +622,31 @@ def shard(arg):
                                                                    'method': m, 'strip': False},
                                       'model': repr(model)[:600], 'real': repr(real)[:600]})
     answers = proto.run_lines(lines + ws_lines)
-    for (js, cfg), ans in zip(meta, answers[:len(lines)]):
+    reals = {}
+
+    def real_of(i):
+        if i not in reals:
+            reals[i] = outlib.render(meta[i][0], meta[i][1])
+        return reals[i]
+    for i, ans in zip(fidx, proto.run_lines(flines)):
+        js, cfg = meta[i]
+        model = outlib.model_answer(ans)
+        if model is None:
+            res.count('model:unmodelled:renderfull')
+            continue
+        res.streams['renderfull'] = res.streams.get('renderfull', 0) + 1
+        res.evaluations += 1
+        if answers[i] == 'unmodelled':
+            res.count('renderfull:outside-the-lite-domain')
+        if model != real_of(i):
+            res.disagreements.append({'stream': 'renderfull', 'case': {'kind': 'render', 'stream': js, **cfg_case(cfg)},
+                                      'model': repr(model)[:600], 'real': repr(real_of(i))[:600]})
+    for i, ((js, cfg), ans) in enumerate(zip(meta, answers[:len(lines)])):
         model = outlib.model_answer(ans)
         if model is None:
             res.count('model:unmodelled')
             continue
-        real = outlib.render(js, cfg)
+        real = real_of(i)
         res.streams['render'] = res.streams.get('render', 0) + 1
         res.evaluations += 1
         if model != real:
